@@ -1470,6 +1470,10 @@ impl AttributeValue {
             }
             AttributeValue::String(ref val) => {
                 debug_assert_form!(constants::DW_FORM_string);
+                // The string is null terminated, so it can't contain a null.
+                if val.contains(&0) {
+                    return Err(Error::InvalidAttributeValue);
+                }
                 w.write(val)?;
                 w.write_u8(0)?;
             }
